@@ -230,6 +230,8 @@ func (s *Server) RunWithCustomSocket(ctx context.Context, sf SocketFactory) erro
 		stgr.NextStageWithContext(runCtx).StartWithContext(runnable)
 	}
 
+	// Not every statser waits for the pipeline, events accepted from the network are waited for in any case
+	defer handler.WaitForEvents()
 	// sendStopEvent uses its own context with a timeout, because the system is shutting down
 	defer sendStopEvent(statser, hostname)
 	sendStartEvent(runCtx, statser, hostname)
